@@ -1,3 +1,4 @@
+#define VP_AMBIENT_ROUNDING 1 // results of this executor may not depend on the dynamic floating-point rounding mode (drv/vp.h)
 // C05 (lists) — intrusive doubly linked ring (VP_SUB=1) and singly linked list (VP_SUB=2)
 // against std::vector models; forward/backward walks after every operation.
 #include "../drv/vp.h"
